@@ -397,6 +397,18 @@ func checkType(res *core.Result, pkg *packages.Package, gt *graphType) {
 				recv: info.Defs[fd.Recv.List[0].Names[0]], alias: map[types.Object]string{}, res: res}
 			effs, unrec := m.effects()
 			for _, u := range unrec {
+				// delete(g.R[a], b) on a multigraph drops every line between
+				// a and b; outside RemoveNode's row/column loops it is only
+				// legitimate as the pruning step `if len(g.R[a][b]) == 0 {…}`
+				// after a line was deleted
+				if call, ok := u.(*ast.CallExpr); ok {
+					if f, ok := call.Fun.(*ast.Ident); ok && f.Name == "delete" {
+						res.Obligations++
+						res.Add(core.Finding{Rule: "GRAPHINV.prune", Key: fmt.Sprintf("GRAPHINV.prune|%s|%s", m.name, nodeText(u)), Pos: core.Pos(u.Pos()), Func: m.name,
+							Msg: fmt.Sprintf("%s removes every line between the two nodes but is not the body of `if len(%s[%s]) == 0`: whether the edge has become empty must be tested after the line was deleted, otherwise live lines are dropped", nodeText(u), types.ExprString(call.Args[0]), types.ExprString(call.Args[1]))})
+						continue
+					}
+				}
 				res.Brokenf("GRAPHINV: unrecognised adjacency mutation in %s at %s: %s (the engine's idiom list must be extended before this code can be judged)",
 					m.name, core.Pos(u.Pos()), nodeText(u))
 			}
